@@ -16,7 +16,9 @@
 //     (0,0) mean "absent";
 //   - MarkFilteringSet is 0 unless the UseMarkFilteringSet flag is set;
 //   - actions of contextual lookups refer to lookup indices < Opts.NumLookups;
-//   - GPOS lookup type 5 is never generated (the library has no encoder).
+//   - GPOS lookup type 5 is never generated (the library has no encoder);
+//   - value records have at least one of XPlacement, YPlacement, XAdvance set
+//     (or are all zero) unless Opts.RichVR asks for the rarer shapes.
 //
 // With Opts.DSL set the output is further restricted to what the lookup
 // description language of opentype/gtab/builder has syntax for: GSUB types
@@ -44,6 +46,9 @@
 //	Features(r, nFeatures)                  one language system (*gtab.Features)
 //	ScriptList(r, tags, nFeatures)          gtab.ScriptListInfo over a subset of tags (DefaultTags)
 //	Gdef(r, nGlyphs)                        *gdef.Table
+//	GdefShape(r, shape, d)                  GDEF shapes Gdef does not produce (GdefShapes: class values > 4, many / large mark glyph sets, offsets near 64 KiB)
+//	BigCount(r, tableType, shape, n, o)     subtable with ONE record of n entries (CountShapes: sequences, alternate sets, rules, action lists, …, mark classes)
+//	RuleSet(r, chained, format, at, sz, o)  contextual subtable whose single rule set has its last rule at byte offset at
 //	Filler(tableType, nBytes)               lookup of exactly nBytes encoded bytes (header included)
 //	TableOf / SetOf / ClassGlyphs / GID     small conversions and helpers
 //
@@ -95,6 +100,9 @@ type Opts struct {
 	NumSets    int            // number of mark glyph sets lookups may refer to (0: 4)
 	Tags       []language.Tag // keys for script lists (nil: DefaultTags)
 	Types      []int          // restrict lookup types (nil: all supported)
+	RichVR     bool           // value records may also consist of YAdvance or of device offsets alone, or have all fields set (not with DSL)
+
+	vrStyle int // set per subtable by the GPOS generators: 1 every record YAdvance only, 2 every record device offsets only
 }
 
 func (o Opts) maxGID() int {
@@ -405,6 +413,11 @@ func nonzero16(r *rand.Rand) funit.Int16 {
 // ValueRecord returns a non-nil value record.  With o.DSL at least one of
 // XPlacement, YPlacement, XAdvance is non-zero and all other fields are zero.
 func ValueRecord(r *rand.Rand, o Opts) *gtab.GposValueRecord {
+	if o.RichVR && !o.DSL {
+		if v := richRecord(r, o); v != nil {
+			return v
+		}
+	}
 	v := &gtab.GposValueRecord{}
 	mask := 1 + r.IntN(7)
 	if mask&1 != 0 {
@@ -433,6 +446,71 @@ func ValueRecord(r *rand.Rand, o Opts) *gtab.GposValueRecord {
 		v.YAdvanceDevOffs = uint16(r.IntN(2) * r.IntN(65536))
 	}
 	return v
+}
+
+// richRecord returns the value records the plain generator never produces:
+// records whose only non-zero field is YAdvance, records that consist of
+// device offsets alone (with o.DevOffs), and records with every field set.
+// With o.vrStyle set every record of the subtable has the same restricted
+// shape, so that the value format of the whole subtable lacks the three
+// common fields.  A nil result means "use the plain generator".
+func richRecord(r *rand.Rand, o Opts) *gtab.GposValueRecord {
+	devOnly := func() *gtab.GposValueRecord {
+		v := &gtab.GposValueRecord{}
+		switch r.IntN(5) {
+		case 0:
+			v.XPlacementDevOffs = uint16(1 + r.IntN(65535))
+		case 1:
+			v.YPlacementDevOffs = uint16(1 + r.IntN(65535))
+		case 2:
+			v.XAdvanceDevOffs = uint16(1 + r.IntN(65535))
+		case 3:
+			v.YAdvanceDevOffs = uint16(1 + r.IntN(65535))
+		default:
+			v.XPlacementDevOffs = uint16(r.IntN(2) * (1 + r.IntN(65535)))
+			v.YPlacementDevOffs = uint16(r.IntN(2) * (1 + r.IntN(65535)))
+			v.XAdvanceDevOffs = uint16(r.IntN(2) * (1 + r.IntN(65535)))
+			v.YAdvanceDevOffs = uint16(1 + r.IntN(65535))
+		}
+		return v
+	}
+	switch o.vrStyle {
+	case 1:
+		return &gtab.GposValueRecord{YAdvance: nonzero16(r)}
+	case 2:
+		return devOnly()
+	}
+	switch x := r.IntN(16); {
+	case x == 0:
+		return &gtab.GposValueRecord{YAdvance: nonzero16(r)}
+	case x == 1 && o.DevOffs:
+		return devOnly()
+	case x == 2:
+		v := &gtab.GposValueRecord{XPlacement: nonzero16(r), YPlacement: nonzero16(r), XAdvance: nonzero16(r), YAdvance: nonzero16(r)}
+		if o.DevOffs {
+			v.XPlacementDevOffs = uint16(1 + r.IntN(65535))
+			v.YPlacementDevOffs = uint16(1 + r.IntN(65535))
+			v.XAdvanceDevOffs = uint16(1 + r.IntN(65535))
+			v.YAdvanceDevOffs = uint16(1 + r.IntN(65535))
+		}
+		return v
+	}
+	return nil
+}
+
+// vrStyled chooses a uniform restricted record shape for one subtable (see
+// Opts.vrStyle) with probability 1/6 when o.RichVR is set.
+func vrStyled(r *rand.Rand, o Opts) Opts {
+	if !o.RichVR || o.DSL {
+		return o
+	}
+	switch x := r.IntN(12); {
+	case x == 0:
+		o.vrStyle = 1
+	case x == 1 && o.DevOffs:
+		o.vrStyle = 2
+	}
+	return o
 }
 
 func actions(r *rand.Rand, inputLen int, o Opts) []gtab.SeqLookup {
